@@ -166,6 +166,47 @@ func rulePoolReset(c *Ctx, fns []*ssa.Function) {
 							if a != obj {
 								continue
 							}
+							// a releasing helper (finish(buf): defer pool.Put(buf); return buf.String()): it puts the
+							// object back — deferred, or as its last use — so the call is this function's Put
+							param := origin(cal).Params[i]
+							var putIn ssa.Instruction
+							putDeferred := false
+							for _, pr := range referrersOf(param) {
+								if mi, ok := pr.(*ssa.MakeInterface); ok {
+									for _, r2 := range referrersOf(mi) {
+										if d, ok := r2.(*ssa.Defer); ok && isPoolMethod(&d.Call, "Put") {
+											putIn, putDeferred = d, true
+										} else if cl, ok := r2.(*ssa.Call); ok && isPoolMethod(&cl.Call, "Put") {
+											putIn = cl
+										}
+									}
+								}
+							}
+							if putIn != nil {
+								late := ""
+								for _, pr := range referrersOf(param) {
+									ci, ok := pr.(ssa.CallInstruction)
+									if !ok {
+										continue
+									}
+									if m := ci.Common().StaticCallee(); m == nil || aliasingMethods[m.Name()] {
+										problems = append(problems, "callee "+cal.Name()+" takes internal memory of the pooled object")
+									}
+									if !putDeferred {
+										if after, _ := reachesWithout(c.P, putIn, false, func(in ssa.Instruction) bool { return in == ssa.Instruction(ci) }, func(ssa.Instruction) bool { return false }); after {
+											late = c.P.pos(instrPos(ci))
+										}
+									}
+								}
+								if late != "" {
+									problems = append(problems, fmt.Sprintf("callee %s puts the object back into the pool and uses it afterwards (at %s): another goroutine can take it from the pool and overwrite it before this one has copied its result out", cal.Name(), late))
+								}
+								if missing, _ := reachesWithout(c.P, firstInstr(origin(cal)), true, isReturn, func(in ssa.Instruction) bool { return in == putIn }); missing {
+									problems = append(problems, "callee "+cal.Name()+" does not put the object back on every path")
+								}
+								uses[r] = "Put"
+								continue
+							}
 							for _, pr := range referrersOf(origin(cal).Params[i]) {
 								ci, ok := pr.(ssa.CallInstruction)
 								if !ok {
